@@ -54,7 +54,7 @@ Complete(k, t) == IF k = "leaf" THEN CompleteLeafSentinel(t) ELSE CompletePbSent
 -----------------------------------------------------------------------------
 (* the validators, guards in code order; a guard is <<name, passes>> *)
 LeafCheck(t, p) == <<
-  <<"parse",   TRUE>>,                                   \* every value used here is in range
+  <<"parse",   p # "wide">>,                             \* a scalar outside the u32 range does not decode: rejected here
   <<"block",   "block" \notin t>>,
   <<"outputs", "out1" \notin t /\ "out2" \notin t>>,
   <<"asset",   "asset" \notin t>>,
@@ -99,12 +99,15 @@ VARIABLES kind, entry, tmpl, pos, pc, verdict, used
 vars == <<kind, entry, tmpl, pos, pc, verdict, used>>
 
 \* the position class means something only when a public-input field deviates
-PosOf(t) == IF t \ {"proof"} = {} THEN {"first"} ELSE Positions
+\* "wide": the template's scalars do not fit their 32-bit fields (asset id 2^32 + 7 when it deviates, block number 2^32
+\* always).  Such a statement has a VALID proof only where the child circuit is the caller's (PrivateBatchProver::new);
+\* the canonical leaf circuit range-checks every scalar.  It must be rejected like any other incomplete sentinel.
+PosOf(e, t) == IF t \ {"proof"} = {} THEN {"first"} ELSE IF e = "pb_new" THEN Positions \cup {"wide"} ELSE Positions
 
 Init ==
   /\ \/ kind = "leaf" /\ entry \in LeafEntries /\ tmpl \in SUBSET LeafDevs
      \/ kind = "pb" /\ entry \in PbEntries /\ tmpl \in SUBSET PbDevs
-  /\ pos \in PosOf(tmpl)
+  /\ pos \in PosOf(entry, tmpl)
   /\ pc = 1 /\ verdict = "running" /\ used = FALSE
 
 Step ==
